@@ -921,6 +921,11 @@ int cp_rsa_ver(uint8_t *sig, size_t sig_len, const uint8_t *msg, size_t msg_len,
 
 		bn_read_bin(eb, sig, sig_len);
 
+		/* The signature representative must be in the range [0, n - 1]. */
+		if (bn_cmp(eb, pub->crt->n) != RLC_LT) {
+			RLC_THROW(ERR_NO_VALID);
+		}
+
 		bn_mxp(eb, eb, pub->e, pub->crt->n);
 
 		int operation = (!hash ? RSA_VER : RSA_VER_HASH);
